@@ -76,7 +76,7 @@ class GraphLeg(object):
         from hypothesis import strategies as st
 
         plain_id = st.from_regex(r"[A-Za-z0-9_.:\-]{1,6}", fullmatch=True)
-        rich_id = st.text(alphabet=st.sampled_from(list("ab1_.:- ,;=&%") + ["é", "λ", "中"]), min_size=1, max_size=6).filter(
+        rich_id = st.text(alphabet=st.sampled_from(list("ab1_.:- ,;=&%") + ["é", "λ", "中", "\x85", "\u2028", "\u2029"]), min_size=1, max_size=6).filter(
             lambda s: s == s.strip() and not s.startswith('"') and not s.endswith('"'))
         ws_id = st.text(alphabet=st.sampled_from(list("ab1") + ["\t", "\n", "\r"]), min_size=2, max_size=5).filter(
             lambda s: any(c in s for c in "\t\n\r") and any(c in s for c in "ab1"))
@@ -107,7 +107,8 @@ class GraphLeg(object):
                 })
             perm = draw(st.permutations(list(range(n))))
             return {"nodes": nodes, "perm": list(perm), "repeated": draw(st.booleans()),
-                    "file_db": draw(st.booleans()), "split": draw(st.sampled_from([0, 0, 1, 2, n // 2]))}
+                    "file_db": draw(st.booleans()), "split": draw(st.sampled_from([0, 0, 1, 2, n // 2])),
+                    "mixed": draw(st.integers(0, 4)) == 0, "tail_sep": draw(st.booleans())}
 
         return case()
 
@@ -139,16 +140,38 @@ class GraphLeg(object):
 
         nodes = case["nodes"]
         n = len(nodes)
+        if case.get("tail_sep"):
+            # every line of a file whose separator matters shows it (>= 2 attributes), otherwise the separator
+            # of the later file is not observable and ';' is assumed by design
+            case = dict(case, nodes=[dict(nd, note=nd.get("note") or "n") for nd in nodes])
+            nodes = case["nodes"]
         recs = build_records(case)
         d = {"style": "gff3", "sep": ";", "trailing": False, "repeated": case["repeated"]}
-        lines = [tm.render_line(recs[j], d) for j in case["perm"]]
+        if case.get("mixed"):
+            # the spec way: Parent as a comma list, while other attributes of the same file repeat their key
+            lines = []
+            for j in case["perm"]:
+                r = recs[j]
+                par = [a for a in r["attrs"] if a[0] == "Parent"]
+                rest = {"cols": r["cols"], "attrs": [a for a in r["attrs"] if a[0] != "Parent"] + [["Dbxref", ["db:%d" % j, "db:x%d" % j]]], "extras": []}
+                col9 = tm.render_attrs(rest["attrs"], dict(d, repeated=True))
+                if par:
+                    col9 += ";Parent=" + ",".join(tm.encode_value(v) for v in par[0][1])
+                lines.append("\t".join(r["cols"] + [col9]))
+        else:
+            lines = [tm.render_line(recs[j], d) for j in case["perm"]]
         path = ctx.write("g.gff3", "\n".join(lines) + "\n")
         dbfn = ctx.path("g.db") if case["file_db"] else ":memory:"
         k = case.get("split")
         if k and 0 < k < len(lines):
             # the tail of the file arrives later through update(): parents may be supplied after their children
             p1 = ctx.write("g1.gff3", "\n".join(lines[:k]) + "\n")
-            p2 = ctx.write("g2.gff3", "\n".join(lines[k:]) + "\n")
+            tail = lines[k:]
+            if case.get("tail_sep") and not case.get("mixed"):
+                # the later file is written with another field separator than the one the database was created from
+                d2 = dict(d, sep="; ", trailing=True)
+                tail = [tm.render_line(recs[j], d2) for j in case["perm"][k:]]
+            p2 = ctx.write("g2.gff3", "\n".join(tail) + "\n")
             db = gffutils.create_db(p1, dbfn)
             for x in list(db.all_features())[:3]:  # look at it before it changes
                 list(db.children(x.id))
